@@ -555,7 +555,7 @@ def n03_internalLog (env : Env) : Nat → String → List String → List LogEnt
     match getClassInPackage env sc with
     | .ok c =>
       n03_methLog true ad c.methods
-        ++ (c.classes.filter (fun ic => !isInternal ic.name)).flatMap (n03_classLog env fuel)
+        ++ (c.classes.filter (fun ic => !isInternal ic.name && !ad.contains ic.name)).flatMap (n03_classLog env fuel)
         ++ (c.superclasses.filter n03_privSuper).flatMap
             (fun ss => n03_internalLog env fuel ss (unionSet ad (n03_methNames true ad c.methods)))
     | .error _ => []
@@ -579,7 +579,7 @@ theorem n03_internalLog_succ (env : Env) (fuel : Nat) (sc : String) (ad : List S
     match getClassInPackage env sc with
     | .ok c =>
       n03_methLog true ad c.methods
-        ++ (c.classes.filter (fun ic => !isInternal ic.name)).flatMap (n03_classLog env fuel)
+        ++ (c.classes.filter (fun ic => !isInternal ic.name && !ad.contains ic.name)).flatMap (n03_classLog env fuel)
         ++ (c.superclasses.filter n03_privSuper).flatMap
             (fun ss => n03_internalLog env fuel ss (unionSet ad (n03_methNames true ad c.methods)))
     | .error _ => [] := by
@@ -1517,7 +1517,7 @@ def n03_inheritedLog (env : Env) : Nat → List String → List Class → List L
   | 0, _, _ :: _ => []
   | fuel + 1, defined, k :: ks =>
     (k.methods.filter fun m => n03_visName m && !defined.contains m.name).map n03_methEntry
-      ++ (k.classes.filter fun ic => !isInternal ic.name).flatMap (n03_classLog env fuel)
+      ++ (k.classes.filter fun ic => !isInternal ic.name && !defined.contains ic.name).flatMap (n03_classLog env fuel)
       ++ n03_inheritedLog env fuel (defined ++ (k.methods.filter n03_visName).map (·.name)) ks
 
 theorem n03_methLog_internal_eq (ad defined : List String) (h : ∀ n, n ∈ ad ↔ n ∈ defined) (ms : List Function) :
@@ -1592,6 +1592,14 @@ theorem n03_chain_log (env : Env) : ∀ (fuel : Nat) (scs : List String) (ks : L
           subst hc
           rw [List.flatMap_cons, List.flatMap_nil, List.append_nil, n03_internalLog_succ, hg]
           dsimp only
+          have hfil : (k.classes.filter fun ic => !isInternal ic.name && !ad.contains ic.name)
+              = (k.classes.filter fun ic => !isInternal ic.name && !defined.contains ic.name) := by
+            apply List.filter_congr
+            intro x _
+            have : ad.contains x.name = defined.contains x.name := by
+              rw [Bool.eq_iff_iff]; simp [hd]
+            rw [this]
+          rw [hfil]
           rw [n03_inheritedLog, n03_methLog_internal_eq ad defined hd,
             ih k.superclasses ks' _ _ hk (n03_defined_step ad defined hd k.methods)]
     · cases hc
